@@ -150,6 +150,39 @@ pub fn run_case(t: &[u8]) -> String {
             Err(_) => "R".into(),
         }
     });
+    // raw-number mode on the copy path: second document of a stream, and a field of a typed structure
+    ep!("rawnum2", {
+        let mut doc = b"[0] ".to_vec();
+        doc.extend_from_slice(t);
+        let mut de = sonic_rs::Deserializer::from_slice(&doc).use_rawnumber();
+        let _first = de.deserialize::<Value>();
+        match Value::deserialize(&mut de) {
+            Ok(v) => {
+                let mut s = String::new();
+                dump_raw(&v, &mut s);
+                s
+            }
+            Err(_) => "R".into(),
+        }
+    });
+    ep!("rawnum_emb", {
+        let mut doc = b"{\"x\":7,\"v\":".to_vec();
+        doc.extend_from_slice(t);
+        doc.extend_from_slice(b",\"y\":[");
+        doc.extend_from_slice(t);
+        doc.extend_from_slice(b",1]}");
+        let mut de = sonic_rs::Deserializer::from_slice(&doc).use_rawnumber();
+        match Emb::deserialize(&mut de) {
+            Ok(e) => {
+                let mut a = String::new();
+                dump_raw(&e.v, &mut a);
+                let mut b = String::new();
+                dump_raw(&e.y[0], &mut b);
+                if a == b && e.x == 7 && e.y.len() == 2 { a } else { format!("MISMATCH:{}|{}", a, b) }
+            }
+            Err(_) => "R".into(),
+        }
+    });
     // lossy mode on (possibly invalid) text
     ep!("lossy", {
         let mut de = sonic_rs::Deserializer::from_slice(t).utf8_lossy();
